@@ -209,6 +209,10 @@ class PandasSchemaBackend(BaseSchemaBackend):
         errors = error_handler.schema_errors
         for err in errors:
             index_values = err.failure_cases["index"]
+            if index_values.empty:
+                # no row is named by this error (e.g. duplicates among null
+                # values are not reported): nothing to drop
+                continue
             if isinstance(check_obj.index, pd.MultiIndex):
                 # MultiIndex values are saved on the error as strings so need to be cast back
                 # to their original types
